@@ -107,9 +107,10 @@ func (f *Frame) topFrame() *Frame {
 // oblige records a proof obligation reach => goal.
 func (f *Frame) oblige(kind, label, goal string, pos token.Pos, props []string, text string) {
 	c := f.c
-	if c.dry || goal == "true" {
+	if c.dry {
 		return
 	}
+	trivial := goal == "true"
 	tf := f.topFrame()
 	base := kind
 	if label != "" {
@@ -126,6 +127,10 @@ func (f *Frame) oblige(kind, label, goal string, pos token.Pos, props []string, 
 	}
 	o := &Obligation{Name: name, Kind: kind, Props: ps, Func: tf.c.fnName, Pos: f.pos(pos),
 		NDefs: len(c.decls), Goal: implies(f.reach, goal), Text: text, ctx: c, fn: tf.fn, fc: tf.fc, clause: f.curClause}
+	if trivial {
+		// the goal simplified to true syntactically while it was being built
+		o.Status, o.Solver = "unsat", "syntactic"
+	}
 	c.obls = append(c.obls, o)
 	// known finding with a witness region: also prove the obligation outside that region,
 	// so that a different failure of the same obligation is still reported
